@@ -241,7 +241,7 @@ func (t *tokenizer) cmd(c *Cmd) {
 		t.body(c.Body)
 		t.res("done", false)
 	case "func":
-		t.emit(Tok{Text: c.Var, Kind: TWord})
+		t.emit(Tok{Text: c.Var, Kind: TWord, CmdPos: true}) // lexically a command-name word
 		t.op("(", false)
 		t.op(")", true)
 		t.cmd(c.FBody)
